@@ -31,7 +31,7 @@ COUNTS = {'quick': 200, 'thorough': 5000}
 BUDGET = {'quick': 110, 'thorough': 1500}
 TIMEOUT = 240
 SHRINK_LISTS = [['ops']]
-EXPECTED_PROBES = ['zero_tc', 'unzero_tc', 'sweep_to_zero', 'twin_compared', 'sweep_rounds', 'alter_tconst', 'after_tds', 'after_snapshot', 'after_reset', 'dense_As_checked',
+EXPECTED_PROBES = ['sweep_two_devices', 'zero_tc', 'unzero_tc', 'sweep_to_zero', 'twin_compared', 'sweep_rounds', 'alter_tconst', 'after_tds', 'after_snapshot', 'after_reset', 'dense_As_checked',
                    'pencil_checked', 'zero_time_constants', 'invariants_checked']
 RULE = ('plan = (stock dynamic case, seeded op history over {eig, alter, sweep, flat tds, snapshot, reset}); non-trivial = at least one '
         'eigenvalue result after a history step was compared with the fresh twin; distinct = (case, op sequence, parameter kinds)')
@@ -67,6 +67,9 @@ def plans(seed, tier, count):
                     'ops': [{'op': 'eig'}, {'op': 'zero_tc', 'pick': 0.1 + 0.3 * j, 'factors': [1.0]}, {'op': 'eig'},
                             {'op': 'unzero_tc', 'pick': 0.4, 'factors': [1.0]}, {'op': 'eig'},
                             {'op': 'sweep0', 'pick': 0.2, 'factors': [2.0, 1.0, 0.0]}]})
+    for j, c in enumerate(['kundur/kundur_full.xlsx', 'ieee14/ieee14_fault.xlsx']):
+        out.append({'property': PROP, 'seed': core.H('fix08two', j), 'case': c,
+                    'ops': [{'op': 'sweep', 'pick': 0.05 + 0.5 * j, 'factors': [0.5, 1.5, 2.0], 'two_devices': True}, {'op': 'eig'}]})
     i = 0
     while len(out) < count:
         out.append({'stub': True, 'seed': core.H(seed, PROP, i), 'tier': tier})
@@ -83,6 +86,9 @@ def elaborate(stub):
     for _ in range(o.randint(1, 4)):
         k = o.choice(['alter', 'alter', 'sweep', 'sweep', 'tds', 'eig', 'snapshot' if o.random() < 0.3 else 'eig', 'reset'])
         ops.append({'op': k, 'pick': o.random(), 'factors': [o.choice([0.5, 0.8, 1.5, 2.0]) for _ in range(o.choice([1, 2, 3]))]})
+        if k == 'sweep':
+            # the documented multi-device form: the same parameter of two devices swept together, each with its own values
+            ops[-1]['two_devices'] = stream(seed, 'two%d' % len(ops)).random() < 0.5
         if k in ('alter', 'tds', 'snapshot', 'reset'):
             ops.append({'op': 'eig'})
         # a time constant moved to or from zero between two analyses (the state changes class: differential <-> algebraic)
@@ -305,7 +311,16 @@ def execute(plan):
                     continue
                 vals = [base_v * f for f in op['factors']]
                 coeff = float(np.asarray(p.pu_coeff)[0]) if np.ndim(p.pu_coeff) else 1.0     # sweep writes system-base values
-                out = ss.EIG.sweep(p, idx, vals)
+                second = None
+                if op.get('two_devices') and mdl.n >= 2 and k == 'sweep' and float(np.asarray(p.v)[1]) != 0:
+                    idx2 = mdl.idx.v[1]
+                    vals2 = [float(np.asarray(p.v)[1]) * f for f in reversed(op['factors'])]
+                    coeff2 = float(np.asarray(p.pu_coeff)[1]) if np.ndim(p.pu_coeff) else 1.0
+                    second = (idx2, vals2, coeff2)
+                    probes['sweep_two_devices'] = probes.get('sweep_two_devices', 0) + 1
+                    out = ss.EIG.sweep([p, p], [idx, idx2], [vals, vals2])
+                else:
+                    out = ss.EIG.sweep(p, idx, vals)
                 if not out:
                     v.append(V('sweep', '[%s] EIG.sweep returned %r' % (where, out), what='empty'))
                     break
@@ -315,6 +330,8 @@ def execute(plan):
                     probes['sweep_rounds'] = probes.get('sweep_rounds', 0) + 1
                     al = dict(altered)
                     al[(name, pn, idx)] = vals[cnt] / coeff
+                    if second is not None:
+                        al[(name, pn, second[0])] = second[1][cnt] / second[2]
                     ref = twin_mu(plan, al)
                     if ref is None:
                         continue
@@ -326,6 +343,8 @@ def execute(plan):
                         break
                 # the sweep leaves its last value in the system
                 altered[(name, pn, idx)] = vals[-1] / coeff
+                if second is not None:
+                    altered[(name, pn, second[0])] = second[1][-1] / second[2]
             elif k == 'tds':
                 ss.TDS.config.tf = (float(ss.dae.t) if ss.TDS.initialized and float(ss.dae.t) > 0 else 0.0) + 0.2
                 if not ss.TDS.initialized:
